@@ -124,9 +124,13 @@ func (b *Broadcaster[T]) Broadcast(value T) {
 // the subscribers. The Broadcaster will be a no-op after this call.
 func (b *Broadcaster[T]) Close() {
 	defer b.wg.Wait()
-	b.lock.Lock()
+	// Close the channel before taking the lock: a Broadcast that is blocked on
+	// a stalled subscriber holds the lock and only closeCh releases it.
 	if b.closed.CompareAndSwap(false, true) {
 		close(b.closeCh)
 	}
-	b.lock.Unlock()
+	// Wait for any Subscribe or Broadcast in progress, so that no forwarder is
+	// added to the wait group after we start waiting on it.
+	b.lock.Lock()
+	b.lock.Unlock() //nolint:staticcheck
 }
